@@ -223,9 +223,21 @@ Definition augment_cube (summary c : cube_desc) : option cube_desc :=
     match augment_counts (cd_elems0 summary) (cd_elems0 c) n own with
     | None => None
     | Some data =>
-        Some (mkCube (set_dim0_missing (cd_dims c) (map e_missing (cd_elems0 summary)))
-                     (cd_elems0 summary) (cd_single_col c)
-                     (mkPayload data (Some data) (p_vcu (cd_payload c)) (p_vcw (cd_payload c))))
+        (* the count measure (the weighted counts) is positioned from its OWN data - since the
+           repair of finding C06-augment-overwrites-weighted-count it is no longer overwritten
+           with the positioned unweighted counts *)
+        let count_data :=
+          match p_count (cd_payload c) with
+          | Some cnt => augment_counts (cd_elems0 summary) (cd_elems0 c) n cnt
+          | None => Some data
+          end in
+        match count_data with
+        | None => None
+        | Some cdata =>
+            Some (mkCube (set_dim0_missing (cd_dims c) (map e_missing (cd_elems0 summary)))
+                         (cd_elems0 summary) (cd_single_col c)
+                         (mkPayload data (Some cdata) (p_vcu (cd_payload c)) (p_vcw (cd_payload c))))
+        end
     end.
 
 Definition inflate_cube (c : cube_desc) : cube_desc :=
